@@ -49,6 +49,10 @@ struct Case {
     /// tape entries consumed by the decoder (generator health only; 0 in hand-written cases)
     #[serde(default)]
     tape_used: usize,
+    /// the functions reach the program second-hand: they were first added to another program in
+    /// reverse order (so each already carries an index, a different one) and are cloned out of it
+    #[serde(default)]
+    recycled: bool,
 }
 
 // ------------------------------------------------------------------------------------------
@@ -278,7 +282,8 @@ fn decode_with(t: &mut Tape, p: &IlParams) -> Case {
         }
         fns.push(fc);
     }
-    Case { fns, tape_used: t.used() }
+    let recycled = t.chance(1, 4);
+    Case { fns, tape_used: t.used(), recycled }
 }
 
 // ------------------------------------------------------------------------------------------
@@ -392,8 +397,21 @@ fn check(case: &Case, obs: &mut Obs) -> Result<(), Failure> {
 
     // ---- build the program through the public API
     let mut program = il::Program::new();
+    let mut built = Vec::new();
     for (fc, inv) in case.fns.iter().zip(&invs) {
-        let f = build_function(fc, inv)?;
+        built.push(build_function(fc, inv)?);
+    }
+    if case.recycled {
+        // functions that already belong to another program, under other indices
+        obs.class("functions-recycled-from-another-program");
+        let mut other = il::Program::new();
+        for f in built.iter().rev() {
+            other.add_function(f.clone());
+        }
+        let n = built.len();
+        built = (0..n).map(|k| other.function(n - 1 - k).expect("function just added").clone()).collect();
+    }
+    for f in built {
         program.add_function(f);
     }
     let clone = program.clone();
@@ -872,6 +890,7 @@ fn main() -> std::process::ExitCode {
     ];
     // measured at bring-up (quick, seed 1; see C18-REPORT.md), floors at roughly half the measured share
     spec.floors = vec![
+        ("functions-recycled-from-another-program", 0.15),
         ("nontrivial", 0.80),
         ("fn-with-empty-block", 0.50),
         ("empty-block-with-in-and-out-edges", 0.40),
